@@ -16,7 +16,8 @@
      inters : Seq(<<type, Seq(key), Seq(<<k, s, n>>), meta, count>>)
      occ    : Seq(<<key, molecule, has position, <<x, y, z>>>>)    one per atom, canonically ordered
    StageEq(i): the four components are equal, coordinates follow the motion.  The judge returns the FIRST stage at which the
-   two presentations differ and how (atoms / bonds / interactions / molecule partition / coordinates).
+   two presentations differ and how (atoms / bonds / interactions / molecule partition / coordinates); the pair is a
+   violation iff the last stage or the written files differ.
 
    (III) ADMISSIBLE DIFFERENCES.  thr lists the items that lie numerically ON a geometric threshold (distance-guessed bond,
    cysteine distance, elastic cut-off; decided by the driver with a 1e-6 relative band).  A pair is accepted only if every
@@ -129,32 +130,49 @@ DiffOcc(m, o1, o2) ==
             IN Bad("coordinates not following the motion", <<o1[i], o2[i]>>)
   ELSE OK(0)
 
-\* one stage; a component whose table entries are those of the previous stage in both runs was judged there
+\* one stage; a component whose table entries are those of the previous stage in both runs keeps the verdict it had there
+\* (prev = the four component verdicts of the previous stage; admitted differences are counted where they first appear)
 Same(r1, r2, i, c) == i > 1 /\ r1.idx[i][c] = r1.idx[i - 1][c] /\ r2.idx[i][c] = r2.idx[i - 1][c]
-StageDiff(r1, r2, m, thr, i) ==
-  LET va == IF Same(r1, r2, i, 1) THEN OK(0) ELSE DiffAtoms(r1.atoms[r1.idx[i][1]], r2.atoms[r2.idx[i][1]])
-      ve == IF Same(r1, r2, i, 2) THEN OK(0) ELSE DiffEdges(thr, r1.edges[r1.idx[i][2]], r2.edges[r2.idx[i][2]])
-      vi == IF Same(r1, r2, i, 3) THEN OK(0) ELSE DiffInters(thr, r1.inters[r1.idx[i][3]], r2.inters[r2.idx[i][3]])
-      vo == IF Same(r1, r2, i, 4) THEN OK(0) ELSE DiffOcc(m, r1.occ[r1.idx[i][4]], r2.occ[r2.idx[i][4]])
-  IN IF va.how # "ok" THEN va
-     ELSE IF ve.how # "ok" THEN ve
-     ELSE IF vi.how # "ok" THEN vi
-     ELSE IF vo.how # "ok" THEN vo
-     ELSE OK(va.adm + ve.adm + vi.adm + vo.adm)
+Keep(v) == [how |-> v.how, adm |-> 0, where |-> v.where]
+StageParts(r1, r2, m, thr, i, prev) ==
+  << IF Same(r1, r2, i, 1) THEN Keep(prev[1]) ELSE DiffAtoms(r1.atoms[r1.idx[i][1]], r2.atoms[r2.idx[i][1]]),
+     IF Same(r1, r2, i, 2) THEN Keep(prev[2]) ELSE DiffEdges(thr, r1.edges[r1.idx[i][2]], r2.edges[r2.idx[i][2]]),
+     IF Same(r1, r2, i, 3) THEN Keep(prev[3]) ELSE DiffInters(thr, r1.inters[r1.idx[i][3]], r2.inters[r2.idx[i][3]]),
+     IF Same(r1, r2, i, 4) THEN Keep(prev[4]) ELSE DiffOcc(m, r1.occ[r1.idx[i][4]], r2.occ[r2.idx[i][4]]) >>
+\* order of the report: atoms, bonds, interactions, molecule partition / coordinates
+StageDiff(parts) ==
+  IF parts[1].how # "ok" THEN parts[1]
+  ELSE IF parts[2].how # "ok" THEN parts[2]
+  ELSE IF parts[3].how # "ok" THEN parts[3]
+  ELSE IF parts[4].how # "ok" THEN parts[4]
+  ELSE OK(parts[1].adm + parts[2].adm + parts[3].adm + parts[4].adm)
 
+\* all stages: <<verdict of stage 1, ..., verdict of stage n>>
 RECURSIVE Scan(_, _, _, _, _, _)
-Scan(r1, r2, m, thr, i, adm) ==
-  IF i > Len(r1.names) THEN [st |-> "ok", stage |-> 0, name |-> "", how |-> "", where |-> <<>>, adm |-> adm]
-  ELSE LET v == StageDiff(r1, r2, m, thr, i)
-       IN IF v.how # "ok" THEN [st |-> "differs", stage |-> i, name |-> r1.names[i], how |-> v.how, where |-> v.where, adm |-> adm]
-          ELSE Scan(r1, r2, m, thr, i + 1, adm + v.adm)
+Scan(r1, r2, m, thr, i, prev) ==
+  IF i > Len(r1.names) THEN <<>>
+  ELSE LET parts == StageParts(r1, r2, m, thr, i, prev) IN <<StageDiff(parts)>> \o Scan(r1, r2, m, thr, i + 1, parts)
 
-Verdict(st, files) == [st |-> st, stage |-> 0, name |-> "", how |-> "", where |-> <<>>, adm |-> 0, files |-> files]
+RECURSIVE SumAdm(_)
+SumAdm(vs) == IF vs = <<>> THEN 0 ELSE Head(vs).adm + SumAdm(Tail(vs))
+
+(* The verdict.  The property speaks about what the run delivers: st = "differs" iff the LAST stage (the system handed to the
+   writers) differs; `stage` / `name` / `how` / `where` localise the FIRST stage at which the two presentations differ at all,
+   `pstage` is the first stage from which on they differ without interruption, `nbad` counts the differing stages.  A pair whose
+   stages differ only in between (nbad > 0, st = "ok") delivered the same result: reported as transient, not a violation. *)
+Verdict(st, files) == [st |-> st, stage |-> 0, name |-> "", how |-> "", where |-> <<>>, pstage |-> 0, nbad |-> 0, adm |-> 0, files |-> files]
 JudgeStages(r1, r2, m, thr, fadm) ==
   LET files == JudgeFiles([one |-> r1.files, two |-> r2.files, motion |-> m, fadm |-> fadm])
   IN IF r1.names # r2.names THEN
           (IF r1.ok # r2.ok THEN Verdict("one-presentation-accepted-the-other-refused", files) ELSE Verdict("stage-lists-differ", files))
-     ELSE LET s == Scan(r1, r2, m, thr, 1, 0)
-          IN [st |-> IF s.st = "ok" /\ r1.ok # r2.ok THEN "one-presentation-accepted-the-other-refused" ELSE s.st,
-              stage |-> s.stage, name |-> s.name, how |-> s.how, where |-> s.where, adm |-> s.adm, files |-> files]
+     ELSE LET n == Len(r1.names)
+              vs == Scan(r1, r2, m, thr, 1, <<OK(0), OK(0), OK(0), OK(0)>>)
+              bad == {i \in 1..n : vs[i].how # "ok"}
+              first == IF bad = {} THEN 0 ELSE CHOOSE i \in bad : \A j \in bad : i <= j
+              pst == IF n \notin bad THEN 0 ELSE CHOOSE i \in bad : (\A j \in i..n : j \in bad) /\ (i = 1 \/ (i - 1) \notin bad)
+          IN [st |-> IF r1.ok # r2.ok THEN "one-presentation-accepted-the-other-refused"
+                     ELSE IF n \in bad THEN "differs" ELSE "ok",
+              stage |-> first, name |-> IF first = 0 THEN "" ELSE r1.names[first],
+              how |-> IF first = 0 THEN "" ELSE vs[first].how, where |-> IF first = 0 THEN <<>> ELSE vs[first].where,
+              pstage |-> pst, nbad |-> Cardinality(bad), adm |-> SumAdm(vs), files |-> files]
 =============================================================================
